@@ -307,6 +307,14 @@ func runCheck(id, tier, entryRe string, workers int, trace bool, sk solver.Kind,
 				}
 			case "alloc":
 				cfg.AllocBudget = uint64(n)
+			case "timeout": // solver timeout per query in ms; only ever raises the tier default
+				if timeoutMS == 0 && n > cfg.SolverTimeout {
+					cfg.SolverTimeout = n
+				}
+			case "maxsec": // wall-clock budget of the quick tier for this check
+				if tier != "thorough" && n > maxSec {
+					maxSec = n
+				}
 			}
 		}
 	}
